@@ -354,6 +354,8 @@ type Relationship struct {
 	ID     string `xml:"Id,attr"`
 	Type   string `xml:"Type,attr"`
 	Target string `xml:"Target,attr"`
+	// TargetMode 为 "External" 时 Target 是包外部的地址（如超链接）；打开的文档中的该属性必须原样写回
+	TargetMode string `xml:"TargetMode,attr,omitempty"`
 }
 
 // ContentTypes 内容类型
